@@ -37,6 +37,7 @@ DEFAULT_OPTS = dict(
     traj=False,  # PDDL3 trajectory constraints (sometime, at-most-once, sometime-before/after)
     cond_prob=0.3,  # probability that an effect is conditional (when `conditional`)
     op_bias=None,  # {connective: extra weight} -- makes a compiler's own feature frequent in its corpus
+    static_guards=0.0,  # probability that an action gets positive preconditions over STATIC Boolean fluents of its parameters
 )
 
 
@@ -109,6 +110,8 @@ class Gen:
         nact = r.randint(min(2, o["max_actions"]), o["max_actions"])
         an = self.names("a", nact)
         P["actions"] = [self.action(an[i]) for i in range(nact)]
+        if o["static_guards"] > 0:
+            self.add_static_guards()
         P["goals"] = [self.bool_expr(2, {}, {}) for _ in range(r.randint(1, 2))]
         P["invariants"] = []
         if o["invariants"] and r.random() < 0.3:
@@ -130,6 +133,39 @@ class Gen:
             P["metric"] = self.metric()
         P["nmetrics"] = 0 if P["metric"]["kind"] == "none" else 1
         return P
+
+    def add_static_guards(self):
+        """Static Boolean fluents (no action writes them: they are added after the effects were generated) used as
+        positive preconditions over the parameters: one unary guard per parameter, and a binary one over both
+        parameters of a two-parameter action.  This is the shape grounders prune by."""
+        r, o, P = self.r, self.o, self.P
+        made = {}
+
+        def guard(types):
+            key = tuple(t["name"] for t in types)
+            if key not in made:
+                name = "sg%d" % len(made)
+                made[key] = name
+                P["fluents"].append({"name": name, "type": {"k": "bool"}, "default": BV(False),
+                                     "sig": [{"name": "xyz"[i], "type": t} for i, t in enumerate(types)]})
+                doms = [objs_of(P, t["name"]) for t in types]
+                tuples = [[]]
+                for d in doms:
+                    tuples = [tu + [x] for tu in tuples for x in d]
+                for tu in tuples:
+                    if r.random() < 0.7:
+                        P["init"].append({"f": name, "args": [OV(a) for a in tu], "v": BV(True)})
+            return made[key]
+
+        for a in P["actions"]:
+            ps = [p for p in a["params"] if p["type"]["k"] == "user"]
+            if not ps or r.random() >= o["static_guards"]:
+                continue
+            for p_ in ps:
+                a["pre"].append(E("fluent", [E("param", name=p_["name"])], name=guard([p_["type"]])))
+            if len(ps) == 2 and r.random() < 0.6:
+                a["pre"].append(E("fluent", [E("param", name=ps[0]["name"]), E("param", name=ps[1]["name"])],
+                                  name=guard([ps[0]["type"], ps[1]["type"]])))
 
     def gen_ifuns(self):
         """interpreted functions as finite tables over int[-2,6] (one numeric, one Boolean)"""
